@@ -255,6 +255,38 @@ def r4(ctx, prog):
     ctx.floor(R, 2)
 
 
+def r6(ctx, prog):
+    R = ctx.rule("C05.R6", "the copied prefix stays: once the old contents were copied into the new block nothing writes into the new block any more before it is returned "
+                           "(the zeroing of the grown tail starts a word *inside* the copied prefix, so it has to come first)")
+    WRITERS = MEMCPY + ("_mi_memzero", "_mi_memzero_aligned", "memset", "_mi_memset", "_mi_memset_aligned")
+    for fname in BODIES:
+        f = prog.fn(fname)
+        cfg = f.cfg
+        p_d, ns_d, old_d, new_d = anchors(f)
+        copies = [c for c in f.calls(MEMCPY) if rl.var_of(f, rl.arg(f, c, 0)) == new_d]
+        if not copies:
+            ctx.broke("C05.R6: no copy into the new block in %s" % fname)
+            continue
+        for c in copies:
+            bad = []
+            for pt in cfg.reach([cfg.after(c)]):
+                e = cfg.elem_at(pt)
+                if e is None or e == c:
+                    continue
+                n = f.nodes[e]
+                if n["k"] == "CallExpr" and n.get("callee") in WRITERS and f.mentions_decl(n["args"][0], new_d):
+                    bad.append(e)
+                elif n["k"] == "CallExpr" and n.get("callee") in prog.fns and n.get("callee") not in ("mi_free", "mi_usable_size", "_mi_usable_size") and \
+                        prog.fns[n["callee"]].d.get("static") and any(rl.var_of(f, a) == new_d for a in n["args"]):
+                    bad.append(e)    # a private helper that receives the new block after the copy (may write into it)
+                elif n["k"] in ("BinaryOperator", "CompoundAssignOperator") and (n["op"] == "=" or n["k"] == "CompoundAssignOperator"):
+                    l = f.strip(n["c"][0])
+                    if f.nodes[l]["k"] in ("ArraySubscriptExpr", "UnaryOperator") and f.mentions_decl(l, new_d) and f.nodes[l].get("op", "*") == "*":
+                        bad.append(e)
+            ctx.check(R, not bad, f.where(c), "no write into the new block after the copy%s" % (": " + f.loc(bad[0]) + " " + f.text(bad[0])[:60] if bad else ""), key="C05.R6:%s" % fname)
+    ctx.floor(R, 2)
+
+
 def run(ctx):
     ctx.explanation = ("Static decision of C05's code-shaped necessary conditions on every CFG path of the two re-allocation bodies, reallocf and mi_expand: "
                        "copy bounds (min idiom), guarded/exactly-once/never-before-return free of the old block, guards of the in-place return, alignment "
@@ -262,7 +294,7 @@ def run(ctx):
     for c in (["REL"] if ctx.tier == "quick" else ["REL", "SEC", "DBG"]):
         prog = ctx.prog(c)
         n0 = len(ctx.instances)
-        r1(ctx, prog); r2(ctx, prog); r3(ctx, prog)
+        r1(ctx, prog); r2(ctx, prog); r3(ctx, prog); r6(ctx, prog)
         if c == "REL":
             r4(ctx, prog)
         if c != "REL":
